@@ -554,7 +554,7 @@ def rule_locator(ctx) -> None:
         e = rd_inline = wrd.inline(c.args[0], n, depth=1) if c.args else None
         ns = _name_suffixes(e) if e is not None else None
         if ns is None:
-            ctx.undecided("C07.STATE", f"{w.qual}/written-name@{n.lineno}", w.loc(c), f"written path not of the form join(dir, f-string + suffix): {src(e)[:60] if e is not None else ''}")
+            ctx.undecided("C07.STATE", ctx.okey(f"{w.qual}/written-name"), w.loc(c), f"written path not of the form join(dir, f-string + suffix): {src(e)[:60] if e is not None else ''}")
             continue
         for suf in ns[1]:
             # ".full.json" / ".delta.json.zst" -> the part after the mode word
